@@ -207,7 +207,11 @@ impl<'a> Reader<'a> {
         let owner_len =
             Name::skip_compressed(&self.octets[self.cursor..]).map_err(Error::InvalidOwner)?;
         let owner_end = self.cursor + owner_len;
-        let rdlength = read_u16(&self.octets[owner_end + 8..])?;
+        let rdlength = read_u16(
+            self.octets
+                .get(owner_end + 8..)
+                .ok_or(Error::UnexpectedEomInField)?,
+        )?;
         let rr_end = owner_end + 10 + rdlength as usize;
         if rr_end > self.octets.len() {
             Err(Error::InvalidRdata(ReadRdataError::UnexpectedEom))
@@ -227,7 +231,11 @@ impl<'a> Reader<'a> {
         let owner_len =
             Name::skip_compressed(&self.octets[self.cursor..]).map_err(Error::InvalidOwner)?;
         let owner_end = self.cursor + owner_len;
-        let rdlength = read_u16(&self.octets[owner_end + 8..])?;
+        let rdlength = read_u16(
+            self.octets
+                .get(owner_end + 8..)
+                .ok_or(Error::UnexpectedEomInField)?,
+        )?;
         let rr_end = owner_end + 10 + rdlength as usize;
         if rr_end > self.octets.len() {
             Err(Error::InvalidRdata(ReadRdataError::UnexpectedEom))
